@@ -147,6 +147,17 @@ pub fn gen_dec(rng: &mut Rng, count: u64, tier: &str) -> Vec<String> {
             push(&mut out, &b);
         }
     }
+    // (b') every ERROR code, 16 bits, with and without message / terminator (the code is looked up in a table of eight)
+    for code in 0u32..65536 {
+        if code > 600 && code % 251 != 0 && code < 65500 {
+            continue;
+        }
+        for t in [&b""[..], b"\0", b"x\0", b"no terminator", b"caf\xe9\0"] {
+            let mut b = vec![0u8, 5, (code >> 8) as u8, code as u8];
+            b.extend_from_slice(t);
+            push(&mut out, &b);
+        }
+    }
     // (c) short buffers
     push(&mut out, &[]);
     for x in 0u16..256 {
